@@ -66,7 +66,14 @@ def guarded_main():
         return 1
 
 
+ORPHANED_ASYNC_GENERATORS = []
+
 if __name__ == "__main__":
+    # Like an event loop, take over the finalisation of async generators that are dropped while suspended. Without these
+    # hooks CPython closes such a generator synchronously when its last reference goes away, which hides every place where
+    # the library leaves cleanup to the garbage collector; with them the cleanup is deferred (here: never run), so whatever
+    # was left to the collector is still unreleased when the oracles look.
+    sys.set_asyncgen_hooks(firstiter=lambda agen: None, finalizer=ORPHANED_ASYNC_GENERATORS.append)
     rc = guarded_main()
     sys.stdout.flush()
     sys.stderr.flush()
